@@ -128,8 +128,39 @@ func nonZeroExit(i ssa.Instruction) bool {
 	if !ok || calleeKey(&c.Call) != "os.Exit" {
 		return false
 	}
-	n, ok := constInt(c.Call.Args[0])
-	return ok && n != 0
+	if n, ok := constInt(c.Call.Args[0]); ok {
+		return n != 0
+	}
+	// a computed status: non-zero when the branch facts at the call say so
+	// (`if code != 0 { os.Exit(code) }`), or when every definition it can have is
+	v := c.Call.Args[0]
+	for _, f := range allFacts(c.Block()) {
+		bo, ok := f.Cond.(*ssa.BinOp)
+		if !ok || (bo.Op != token.NEQ && bo.Op != token.EQL) {
+			continue
+		}
+		var k *ssa.Const
+		switch {
+		case bo.X == v:
+			k, _ = bo.Y.(*ssa.Const)
+		case bo.Y == v:
+			k, _ = bo.X.(*ssa.Const)
+		}
+		if k == nil {
+			continue
+		}
+		if n, isInt := constInt(k); isInt && n == 0 && ((bo.Op == token.NEQ) == f.Pol) {
+			return true
+		}
+	}
+	srcs := sourcesAt(v, c.Block())
+	for _, vs := range srcs {
+		n, ok := constInt(vs.Val)
+		if !ok || n == 0 {
+			return false
+		}
+	}
+	return len(srcs) > 0
 }
 
 // failsLoudly checks that every path from the start of block `from` ends in a return
